@@ -79,6 +79,17 @@ def check_generic(st, hist, label):
         if rl:
             if st.getTid(oid) != rl[-1][0]:
                 return '%s getTid(%s)=%r expected %r' % (label, oid.hex(), st.getTid(oid), rl[-1][0])
+            # history: the revisions of BOTH layers, newest first, cut at `size`
+            for size in (1, 2, 100):
+                try:
+                    got = [d['tid'] for d in st.history(oid, size)]
+                except Exception as e:  # noqa
+                    got = '%s: %s' % (type(e).__name__, e)
+                exp = [t for t, _ in reversed(rl)][:size]
+                if got != exp:
+                    return '%s history(%s, size=%d) tids %r expected %r' % (
+                        label, oid.hex(), size, got if isinstance(got, str) else [t.hex() for t in got],
+                        [t.hex() for t in exp])
     if hist and st.lastTransaction() != hist[-1][0]:
         return '%s lastTransaction()=%r expected %r' % (label, st.lastTransaction(), hist[-1][0])
     return None
@@ -186,6 +197,22 @@ def search(func, candidate, seed, tier, obligation=''):
                                 return fail(inp, 'fresh id', 'new_oid() returned %r' % o, cases)
                             got.add(o)
                         demo.tpc_abort(t)
+                        # a pack through the demo storage (to a time before everything: nothing to remove)
+                        # is delegated to the changes layer, or refused with the documented TypeError
+                        from ZODB.serialize import referencesf
+                        cases += 1
+                        try:
+                            demo.pack(1.0, referencesf)
+                        except TypeError as e:
+                            if 'gc' not in str(e).lower() and 'garbage' not in str(e).lower():
+                                return fail(inp, 'pack through the demo storage works or is refused for gc',
+                                            'TypeError: %s' % e, cases)
+                        except Exception as e:  # noqa
+                            return fail(inp, 'pack through the demo storage works or is refused for gc',
+                                        '%s: %s' % (type(e).__name__, e), cases)
+                        r = check_generic(demo, hist, 'after a pack through the demo storage')
+                        if r:
+                            return fail(inp, 'changes-over-base model', r, cases)
                         after = dump(base)
                         if after != before:
                             return fail(inp, 'base unchanged', 'base history differs', cases)
